@@ -56,7 +56,7 @@ pub fn total(bytes: &[u8]) -> String {
     };
 
     let t = Instant::now();
-    let r = catch_unwind(AssertUnwindSafe(|| crate::ana::analyze_cmd(&[text.clone()])));
+    let r = catch_unwind(AssertUnwindSafe(|| crate::ana::analyze_cmd(&[text.clone()], &[])));
     match r {
         Ok(s) => out.push(format!(
             "analyze={}:{}",
